@@ -309,4 +309,33 @@ p("c10-p-substitute-rename", "C10", CFGF,
   "        for ter, cfg in substitution.items():\n            new_variables_d_local = {}\n            for variable in cfg.variables:",
   "        for ter, cfg in substitution.items():\n            new_variables_d_local = dict()\n            for variable in cfg.variables:")
 
+# ----------------------------------------------------------------------------- C11
+PDAF = "pyformlang/pda/pda.py"
+b("c11-empty-only-self", "C11", CFGF,
+  "        generate_empty = self.contains([]) and other.accepts([])", "        generate_empty = self.contains([])",
+  "start->epsilon-iff-both")
+b("c11-no-terminal-rules", "C11", CFGF,
+  "            else:\n                new_productions += self._intersection_when_terminal(\n                    other,\n                    production,\n                    cv_converter,\n                    states)\n",
+  "", "both-normal-form-shapes")
+b("c11-start-rules-all-states", "C11", CFGF,
+  "        for final_state in other.final_states:\n            new_body = [", "        for final_state in other.states:\n            new_body = [",
+  "start-rules")
+b("c11-notimplemented-to-typeerror", "C11", CFGF,
+  "            if not other.is_deterministic():\n                other = other.to_deterministic()\n        else:\n            raise NotImplementedError\n        if other.is_empty():",
+  "            if not other.is_deterministic():\n                other = other.to_deterministic()\n        else:\n            raise TypeError\n        if other.is_empty():",
+  "dispatcher-raises-only-NotImplementedError")
+b("c11-pda-final-only-pda", "C11", PDAF,
+  "            if (state_in in self._final_states and state_dfa in\n                    final_state_other):",
+  "            if (state_in in self._final_states):", "product-final-iff-both")
+b("c11-pda-eps-moves-automaton", "C11", PDAF,
+  "                if symbol == Epsilon():\n                    next_states_dfa = [state_dfa]\n                else:\n                    next_states_dfa = other(state_dfa, symbol_dfa)",
+  "                next_states_dfa = other(state_dfa, symbol_dfa)", "epsilon-keeps-automaton-state")
+b("c11-pda-index-set", "C11", PDAF,
+  "                        for next_state_dfa in next_states_dfa:\n                            pda.add_transition(",
+  "                        for next_state_dfa in [other(state_dfa, symbol_dfa)[0]]:\n                            pda.add_transition(",
+  "successor-index")
+p("c11-p-always-determinise", "C11", CFGF,
+  "            if not other.is_deterministic():\n                other = other.to_deterministic()\n        else:\n            raise NotImplementedError\n        if other.is_empty():",
+  "            other = other.to_deterministic()\n        else:\n            raise NotImplementedError\n        if other.is_empty():")
+
 VARIANTS = V
